@@ -14,7 +14,7 @@ from lib import common, forkpool, lianrun
 
 PROP = "C04"
 BATCH = 60
-LANGS = ["python", "javascript"]
+LANGS = ["python", "javascript", "java", "c"]
 VEC_CAP = 48
 
 
@@ -42,6 +42,91 @@ def py_ground_truth(src, vectors):
         else:
             out.append({"status": r["status"], "outputs": [], "ret": None})
     return out
+
+
+def _parse_driver_output(text, n):
+    res, cur = [], None
+    for line in text.splitlines():
+        if line == "#":
+            cur = {"status": "ok", "outputs": [], "ret": None}
+            res.append(cur)
+        elif cur is None:
+            continue
+        elif line == "!":
+            cur["status"] = "throw"
+        elif line.startswith("="):
+            cur["ret"] = int(line[1:])
+        else:
+            try:
+                cur["outputs"].append(int(line))
+            except ValueError:
+                cur["outputs"].append(line)
+    return res if len(res) == n else None
+
+
+def java_ground_truth_batch(progs, workdir):
+    """progs: [(file name, class ident, text, vectors)] -> {file name: [ground truth per vector] | None}"""
+    jd = os.path.join(workdir, "javagt")
+    os.makedirs(jd, exist_ok=True)
+    files = []
+    for name, ident, text, vecs in progs:
+        with open(os.path.join(jd, name), "w") as f:
+            f.write(text)
+        vs = ", ".join("{" + ", ".join(str(x) for x in v) + "}" for v in vecs)
+        drv = (f"public class Drv{ident} {{ public static void main(String[] a) {{ int[][] vs = {{{vs}}}; for (int[] v : vs) {{ "
+               f"System.out.println(\"#\"); try {{ int r = Sk{ident}.main(v); System.out.println(\"=\" + r); }} "
+               f"catch (RuntimeException e) {{ System.out.println(\"!\"); }} }} }} }}\n")
+        with open(os.path.join(jd, f"Drv{ident}.java"), "w") as f:
+            f.write(drv)
+        files += [os.path.join(jd, name), os.path.join(jd, f"Drv{ident}.java")]
+    out = {}
+    try:
+        p = subprocess.run(["javac", "-nowarn", "-d", jd] + files, capture_output=True, text=True, timeout=600)
+        compiled = p.returncode == 0
+    except Exception:
+        compiled = False
+    if not compiled:
+        # compile one by one so that a single rejected program does not cost the batch
+        for name, ident, text, vecs in progs:
+            try:
+                p = subprocess.run(["javac", "-nowarn", "-d", jd, os.path.join(jd, name), os.path.join(jd, f"Drv{ident}.java")],
+                                   capture_output=True, text=True, timeout=120)
+                if p.returncode != 0:
+                    out[name] = None
+            except Exception:
+                out[name] = None
+    for name, ident, text, vecs in progs:
+        if name in out:
+            continue
+        try:
+            p = subprocess.run(["java", "-XX:TieredStopAtLevel=1", "-cp", jd, f"Drv{ident}"], capture_output=True, text=True, timeout=60)
+            out[name] = _parse_driver_output(p.stdout, len(vecs)) if p.returncode == 0 else None
+        except Exception:
+            out[name] = None
+    return out
+
+
+def c_ground_truth(name, text, vecs, workdir):
+    cd = os.path.join(workdir, "cgt")
+    os.makedirs(cd, exist_ok=True)
+    with open(os.path.join(cd, name), "w") as f:
+        f.write(text)
+    n = len(vecs[0])
+    vs = ", ".join("{" + ", ".join(str(x) for x in v) + "}" for v in vecs)
+    drv = (f"#include <stdio.h>\nvoid out(int k) {{ printf(\"%d\\n\", k); }}\n#include \"{name}\"\n"
+           f"int main() {{ int vs[][{n}] = {{{vs}}}; for (int i = 0; i < {len(vecs)}; i++) {{ printf(\"#\\n\"); int r = main_(vs[i]); "
+           f"printf(\"=%d\\n\", r); }} return 0; }}\n")
+    dp = os.path.join(cd, "drv_" + name)
+    with open(dp, "w") as f:
+        f.write(drv)
+    try:
+        p = subprocess.run(["gcc", "-w", "-O0", "-o", dp[:-2], dp], capture_output=True, text=True, timeout=60)
+        if p.returncode != 0:
+            return None
+        p = subprocess.run([dp[:-2]], capture_output=True, text=True, timeout=20)
+        return _parse_driver_output(p.stdout, len(vecs))
+    except Exception:
+        return None
 
 
 def owned_rows(unit, mrow):
@@ -97,13 +182,17 @@ def analyse_batch(job):
     for i, (label, body, domains) in enumerate(skels):
         sk = gen_cf.Skel(body, domains, label)
         rnd = gen_cf.RENDERERS[lang]()
+        rnd.ident = f"{i:04d}"
         text = rnd.render(sk)
-        name = f"s{i:04d}.{rnd.ext}"
+        name = f"Sk{i:04d}.java" if lang == "java" else f"s{i:04d}.{rnd.ext}"
         with open(os.path.join(src_dir, name), "w") as f:
             f.write(text)
         rng = random.Random(__import__("zlib").crc32(f"{label}:{i}".encode()))
         vecs = gen_cf.vectors(domains, VEC_CAP, rng) if domains else [[]]
-        progs.append((name, sk, text, [rnd.conv_vector(v, sk) for v in vecs]))
+        vecs = [rnd.conv_vector(v, sk) for v in vecs]
+        if lang in ("java", "c"):
+            vecs = [list(v) + [0] for v in vecs]          # int d[] is never empty
+        progs.append((name, sk, text, vecs))
     st = lianrun.write_settings(os.path.join(sc, f"c04st_{tag}"))
     ws = os.path.join(sc, f"c04ws_{tag}")
     # handler coverage of ControlFlowAnalysis
@@ -134,6 +223,8 @@ def analyse_batch(job):
             cfg.setdefault(int(r["method_id"]), {}).setdefault(int(r["src_stmt_id"]), set()).add(int(r["dst_stmt_id"]))
     res = {"lang": lang, "handlers": reached, "fails": [], "pairs": 0, "activations": 0, "vectors": 0, "validated": 0,
            "unvalidated": 0, "vm_errors": {}, "programs": 0, "distinct": 0, "opseen": {}, "no_gt": 0}
+    java_gt = java_ground_truth_batch([(n, n[2:6], t, v) for n, _, t, v in progs], sc + "/" + tag) if lang == "java" else {}
+    entry_name = {"java": "main", "c": "main_"}.get(lang, "main")
     for name, sk, text, vecs in progs:
         u = unit_of.get(name)
         rows = rows_by_unit.get(u)
@@ -152,11 +243,18 @@ def analyse_batch(job):
                 continue
             blk = r.get("parent_stmt_id")
             parent_of[r["stmt_id"]] = parent_of.get(("b", blk), blk) if blk else None
-        gts = py_ground_truth(text, vecs) if lang == "python" else node_ground_truth(text, vecs)
+        if lang == "python":
+            gts = py_ground_truth(text, vecs)
+        elif lang == "javascript":
+            gts = node_ground_truth(text, vecs)
+        elif lang == "java":
+            gts = java_gt.get(name)
+        else:
+            gts = c_ground_truth(name, text, vecs, sc + "/" + tag)
         if gts is None:
             res["no_gt"] += 1
             gts = [None] * len(vecs)
-        methods = {r["stmt_id"]: r for r in rows if r.get("operation") == "method_decl"}
+        methods = {r["stmt_id"]: r for r in rows if r.get("operation") == "method_decl" and r.get("name") != "out"}
         own_cache = {}
         static_done = False
         prog_fail = False
@@ -167,7 +265,12 @@ def analyse_batch(job):
             status = "ok"
             ret = None
             try:
-                ret = vm.run_entry(vm.units[0], "main", [v])
+                if lang == "java":
+                    vm.init_unit(vm.units[0])
+                    cls = next(c for c in vm.units[0].globals.vars.values() if isinstance(c, girvm.Class) and "main" in c.methods)
+                    ret = vm.call_func(cls.methods["main"], [v], {}, girvm.UNBOUND, {"stmt_id": -1}, cls=cls)
+                else:
+                    ret = vm.run_entry(vm.units[0], entry_name, [v])
             except girvm.GirThrow:
                 status = "throw"
             except girvm.VMError as e:
@@ -178,7 +281,7 @@ def analyse_batch(job):
                 res["unvalidated"] += 1
                 continue
             outs = []
-            for o in vm.outputs:
+            for o in (vm.outputs if lang in ("python", "javascript") else [(x,) for x in vm.raw_outputs]):
                 try:
                     outs.append(int(o[0]))
                 except Exception:
